@@ -444,12 +444,15 @@ async def process_spawning_cause(
             daemons=memory.daemons_memory.running_daemons,
             handlers=handlers,
         )
+        # Do not spawn while the operator is paused or exiting: nobody would stop those in stages
+        # (the re-listing after the pause spawns them). It is race-free: no awaits till spawning.
+        paused = operator_paused is not None and operator_paused.is_on()
         spawning_delays = await daemons.spawn_daemons(
             settings=settings,
             daemons=memory.daemons_memory.running_daemons,
             cause=cause,
             memory=memory.daemons_memory,
-            handlers=handlers,
+            handlers=handlers if not paused else [],
         )
         # Critical: strictly after spawning; see the docstring why.
         pausing_delays = await daemons.pause_daemons(
